@@ -156,6 +156,58 @@ def validate_traces(spec, files, jobs=None, timeout=3600, xmx='2g'):
     return out
 
 
+def cfg_value(v):
+    if isinstance(v, bool):
+        return 'TRUE' if v else 'FALSE'
+    if isinstance(v, str):
+        return '"%s"' % v
+    if isinstance(v, (set, frozenset, list, tuple)):
+        return '{' + ', '.join(cfg_value(x) for x in sorted(v, key=lambda z: (str(type(z)), z))) + '}'
+    return str(v)
+
+
+def mc_run(module, consts, invariants=('NoViolation',), props=(), view='View', workers=4, timeout=1800, export=False, xmx='6g',
+           spec='Spec', name=None, constraint=None):
+    """run TLC on spec/mc/<module>.tla with a generated cfg; returns stats (+ exported histories when export=True)"""
+    name = name or (module + '_' + hashlib.md5(json.dumps(consts, sort_keys=True, default=list).encode()).hexdigest()[:8])
+    d = os.path.join(RUN, 'mc')
+    os.makedirs(d, exist_ok=True)
+    cfg = os.path.join(d, name + '.cfg')
+    with open(cfg, 'w') as f:
+        f.write('SPECIFICATION %s\nCONSTANTS\n' % spec)
+        for k, v in consts.items():
+            f.write('  %s = %s\n' % (k, cfg_value(v)))
+        for inv in invariants:
+            f.write('INVARIANT %s\n' % inv)
+        if export:
+            f.write('INVARIANT Export\n')
+        for p_ in props:
+            f.write('PROPERTY %s\n' % p_)
+        if view:
+            f.write('VIEW %s\n' % view)
+        if constraint:
+            f.write('CONSTRAINT %s\n' % constraint)
+        f.write('CHECK_DEADLOCK FALSE\n')
+    r = tlc(SPEC + '/mc', module + '.tla', cfg, workers=1 if export else workers, timeout=timeout, xmx=xmx, coverage=False)
+    out = r['out']
+    r['name'] = name
+    r['consts'] = consts
+    r['violated'] = 'is violated' in out or 'Error:' in out
+    if r['violated'] or not r['completed']:
+        k = out.find('Error:')
+        r['error_text'] = out[k:k + 3000] if k >= 0 else out[-3000:]
+    if export:
+        hists = []
+        for line in out.split('\n'):
+            if line.startswith('<<"HIST"'):
+                m_ = re.match(r'<<"HIST", "(.*)">>$', line.strip())
+                if m_:
+                    hists.append(json.loads(m_.group(1).encode().decode('unicode_escape')))
+        r['hists'] = hists
+    del r['out']
+    return r
+
+
 def extract_history(tracefile, h):
     """the events of history h (from its "N" line up to the next "N")"""
     evs = []
@@ -255,7 +307,7 @@ def load_known():
     return json.load(open(p))
 
 
-def match_known(known, prop, tag, hist_events):
+def match_known(known, prop, tag, hist_events, build='default'):
     """a finding matches by property + tag + a small structural predicate on the history (see known_findings.json)"""
     for k in known.get('findings', []):
         if k['property'] != prop or (k.get('tag') and k['tag'] != tag):
@@ -266,7 +318,7 @@ def match_known(known, prop, tag, hist_events):
         for key, val in m.get('first', {}).items():
             if first.get(key) not in (val if isinstance(val, list) else [val]):
                 ok = False
-        if 'build' in m and os.environ.get('VERIF_BUILD', 'default') not in m['build']:
+        if 'build' in m and build not in m['build']:
             ok = False
         if ok:
             return k
@@ -325,6 +377,9 @@ class Report:
                 cur.append(l[:maxlen])
             for h in hist[:n]:
                 self.cov['samples'].append([json.loads(x) if len(x) < maxlen else x for x in h[:8]])
+            if not hist:
+                for x in lines[:n]:
+                    self.cov['samples'].append(json.loads(x) if len(x) < maxlen else x[:maxlen])
         except Exception as e:
             self.notes.append('sample extraction failed: %r' % (e,))
 
@@ -344,7 +399,8 @@ class Report:
         self.write()
         for k in self.known_hits:
             print('KNOWN-FINDING: property=%s %s' % (k['property'], k['what']))
-        for (p, tag, path) in self.violations:
+        # violations of the property being checked first
+        for (p, tag, path) in sorted(self.violations, key=lambda v: (v[0] != self.prop, v[0], v[1])):
             print('VIOLATION property=%s replay=%s tag=%s' % (p, path, tag))
         sys.stdout.flush()
         return 1 if self.violations else 0
@@ -374,6 +430,29 @@ OWNERS = {
     'C05.str-invalid': ['C05'],
     'C05.string-invalid': ['C05'],
     'C05.str-after-panic': ['C05'],
+    'C04.prefix': ['C04', 'C03', 'C09'],
+    'C04.unmappable': ['C04', 'C03'],
+    'C04.lost': ['C04', 'C03'],
+    'C04.lost-output': ['C04', 'C03'],
+    'C04.split-character': ['C04', 'C03'],
+    'C04.output-ahead-of-input': ['C04'],
+    'C09.had-unmappables': ['C09', 'C04'],
+    'C09.unmappable-with-replacement': ['C09'],
+    'C12.pending-state': ['C12', 'C04'],
+    'C12.not-ascii-at-end': ['C12', 'C03'],
+    'C12.undecodable': ['C12', 'C03'],
+    'C12.roundtrip': ['C12', 'C03'],
+    'C06.enc-panic': ['C06', 'C04'],
+    'C06.enc-bounds': ['C06'],
+    'C06.enc-inputempty-unconsumed': ['C06', 'C04'],
+    'C06.vec-content': ['C06'],
+    'C06.vec-realloc': ['C06'],
+    'C06.enc-guard': ['C06'],
+    'C08.enc-noprogress': ['C08'],
+    'C08.enc-call-bound': ['C08'],
+    'C08.enc-livelock': ['C08'],
+    'C07.enc-insufficient': ['C07'],
+    'C18.enc-fill-dependent': ['C18'],
 }
 
 
@@ -385,7 +464,7 @@ def owner_of(tag, running_prop):
     return running_prop if running_prop in o else o[0]
 
 
-def handle_trace_violations(rep, results, known=None):
+def handle_trace_violations(rep, results, known=None, build='default'):
     """turn the viol records of trace validation into VIOLATION lines / known findings / tool errors"""
     known = known if known is not None else load_known()
     os.makedirs(RUN + '/replay', exist_ok=True)
@@ -397,7 +476,7 @@ def handle_trace_violations(rep, results, known=None):
                 raise ToolError('driver/harness protocol error %s in %s history %s' % (tag, r['file'], v.get('h')))
             prop = owner_of(tag, rep.prop)
             evs = extract_history(r['file'], v['h'])
-            kf = match_known(known, prop, tag, evs)
+            kf = match_known(known, prop, tag, evs, build)
             if kf:
                 if kf['id'] not in [k['id'] for k in rep.known_hits]:
                     rep.known_hits.append({'id': kf['id'], 'property': prop, 'what': kf['what']})
